@@ -68,19 +68,20 @@ Theorem C35_nts_pool_bounded_distinct_names_partial : forall n ops,
 Proof. exact nts_pool_safe_from_start. Qed.
 
 (* non-vacuity: count 2, ignore ip 3; answer [A;A;C(ignored);B]: sources on B then A (popped from
-   the end), the second A skipped; after B is removed and the answer is [A;B] the pool refills
-   with B and never doubles A *)
+   the end), the second A stays in known_ips; after B is removed the next round finds that A
+   (enough known addresses, so no lookup), skips it, and spawns nothing; the round after that
+   resolves again ([A;B]) and refills with B *)
 Example C35_nonvacuous :
   let c := mkcfg 2 [3] in
   let ops := [TrySpawn (Some [(1,123); (1,123); (3,123); (2,123)]); Removed 0 NetworkIssue;
-              TrySpawn (Some [(1,123); (2,123)])] in
+              TrySpawn (Some [(1,123); (2,123)]); TrySpawn (Some [(1,123); (2,123)])] in
   trace c ops = [Spawned 0 (2,123); Spawned 1 (1,123); Gone 0; Spawned 2 (2,123)]
   /\ active (trace c ops) = [(1, (1,123)); (2, (2,123))]
   /\ trace_unrepaired c [TrySpawn (Some [(1,123); (1,123)])] = [Spawned 0 (1,123); Spawned 1 (1,123)].
 Proof. vm_compute. repeat split. Qed.
 
 Example C35_nonvacuous_nts :
-  ncurrent (nts_exec 2 [NtsTrySpawn [KeOk None 7 true; KeOk None 7 true]; NtsTrySpawn [KeTimeout; KeOk (Some 8) 7 true]]
+  ncurrent (nts_exec 2 [NtsTrySpawn [KeOk None 7 true; KeOk None 7 true]; NtsTrySpawn [KeTimeout]; NtsTrySpawn [KeOk (Some 8) 7 true]]
                      (mkntspool [] 0)) = [(0, 7); (1, 8)].
 Proof. vm_compute. reflexivity. Qed.
 
